@@ -27,8 +27,9 @@ Model.add_groups(group_list)   [keys: Model.add_groups]
   the docstring also mentions, cannot work - the function reads `.id` of it - and is not covered.)
   With "joining" = the listed groups whose identifier is not in model.groups at entry, PROVED for any list / model / group size:
     * listed groups whose identifier is already present are ignored (nothing about them changes, only logger.warning);
-    * the joining groups are appended to model.groups in their order (DictList `+=`), which is well formed again, old members in
-      place; every joining group points at the model; no other GROUP's `_model` changes; no member set, no identifier changes;
+    * model.groups keeps its old members in place and its new tail holds exactly the joining groups (each appended by DictList
+      `+=`; their relative order is NOT stated), it is well formed again; every joining group points at the model; no other
+      GROUP's `_model` changes; no member set, no identifier changes;
     * two joining groups with the same identifier: ValueError (raised by DictList(...) before anything is changed);
     * members: for every joining group g and every member m of g (in any enumeration order of the set): m is handed to
       self.add_metabolites([m]) exactly when m is a Metabolite and its identifier was not in model.metabolites at the moment m was
@@ -36,14 +37,18 @@ Model.add_groups(group_list)   [keys: Model.add_groups]
       moment; nothing else is handed to either function, nothing twice (ghost call trace with a witness map; "at the moment it was
       examined" is the recorded truth value of the very test the code makes - the two callees change the model in between);
     * no context: nothing is registered; in a context: for every joining group exactly partial(setattr, group, "_model", None)
-      (before its members are handled) and partial(model.groups.__isub__, [group]) (after it joined), in that order, in the innermost
-      context; nothing else, nothing twice.
+      and, later, partial(model.groups.__isub__, [group]), both in the innermost context; nothing else, nothing twice (the position
+      of these entries relative to the calls add_metabolites / add_reactions is not stated: two separate ghost traces).
   ASSUMED (abstract callees, recorded): Model.add_metabolites([m]) / Model.add_reactions([m]) may change model.metabolites and
   model.reactions arbitrarily (they are well-formed DictLists again) and the `_model` pointer of objects that are NOT groups; they
   change no identifier, no member set, not model.groups, not the context stack, no `_model` of a Group, and what THEY register with
   the context is their own business (not part of the trace).  `isinstance(member, Metabolite / Reaction)` is the class tag
-  `class_tag(member)` (uninterpreted; the tags are pairwise different); STATED precondition: the listed groups and the groups of the
-  model carry the tag Group, no listed group is None, model.groups / metabolites / reactions are well formed.
+  `class_tag(member)` (uninterpreted; the tags are pairwise different); STATED precondition: the listed groups carry the tag Group,
+  no listed group is None, model.groups / metabolites / reactions are well formed.
+Engine: NO change of pyvc.  `filter(f, <list>)` and `DictList(<list>)` get their meaning through the `global` / `call_abstract` hooks
+  of this module (filter = the filtered comprehension of pyvc.comprehension with the disjunction of the true-returning paths of f as
+  condition; DictList(...) = the C15 contract of DictList.__init__).
+Wiring: keys KEYS = ["Model.remove_groups", "Model.add_groups"] (RG_KEYS / AG_KEYS), hook table HOOKS (one table for both keys).
 """
 import z3
 import cobra  # noqa
@@ -122,6 +127,13 @@ def call_object_hook(eng, st, f, pos, kw):
         gt = (n + 1, z3.Store(kd, n, z3.IntVal(kind)), z3.Store(ar, n, g), z3.Store(cx, n, f.t),
               z3.Store(wh, z3.IntVal(kind), z3.Store(z3.Select(wh, z3.IntVal(kind)), g, n)))
         return [("ok", st.setghost("gtrace", gt), NONE)]
+    return None
+
+
+def str_getattr_hook(eng, st, v, name):
+    """a str has no attribute `id` (what the pre-repair remove_groups read from a listed identifier): AttributeError"""
+    if name == "id" and (isinstance(v, VStr) or (isinstance(v, VConc) and isinstance(v.py, str))):
+        return [eng.raise_(st, "AttributeError")]
     return None
 
 
@@ -281,11 +293,8 @@ for _tag, _t in (("group_objects", TList("ref:Group")), ("identifier_strings", T
     _rg_cases.append(_pc(Case(f"{_tag}:in_context", requires=_has_ctx, ensures=_rg_post(True)), group_list=_t))
 
 
-class _CtxLoop(LoopSpec):
-    """the invariant depends on whether the case has a context: decided from the entry state (a concrete fact of the path)"""
-
-
 def _rg_inv_any(E, Lc):
+    """the invariant depends on whether the case has a context: the local `context` is a manager, or None"""
     ctx = Lc.var("context")
     return _rg_inv(isinstance(ctx, VRef))(E, Lc)
 
@@ -461,7 +470,7 @@ def ag_call_method_hook(eng, st, recv, name, pos, kw):
     return None
 
 
-HOOKS = chain_hooks({"call_object": call_object_hook, "global": global_hook, "isinstance": isinstance_hook,
+HOOKS = chain_hooks({"call_object": call_object_hook, "global": global_hook, "isinstance": isinstance_hook, "getattr": str_getattr_hook,
                      "call_abstract": call_abstract_hook, "call_method": ag_call_method_hook}, C3.ALL_HOOKS)
 
 
@@ -647,7 +656,7 @@ def _ag_inv1(E, Lc):
           # the entries made for this group: one per member examined so far that had to be handed on
           FA([j], z3.Implies(z3.And(nA <= j, j < n),
                              z3.And(_call_ok(E, st, j, lambda q: q == g), D[ar[j]], pos[ar[j]] < t)), patterns=[kd[j], ar[j], gr[j]]),
-          FA([mm], z3.Implies(z3.And(D[mm], pos[mm] < t), _calls_complete(E, st, g, mm, nA, n)), patterns=[pos[mm]])]
+          FA([mm], z3.Implies(z3.And(D[mm], pos[mm] < t), _calls_complete(E, st, g, mm, nA, n)), patterns=[pos[mm], D[mm]])]
     return z3.And(*cs)
 
 
